@@ -117,13 +117,29 @@ def valid_case(case):
 # oracle
 
 
+KEYS = ["name", "archqual", "version", "arch", "restrictions"]
+
+
+def _reorder(d, k):
+    """The same mapping with its keys inserted in the k-th rotation/reversal of the parser's order
+    (a relation is a mapping: the order in which a caller happened to fill it is not part of it)."""
+    if not k:
+        return d
+    ks = KEYS[k % 5:] + KEYS[:k % 5]
+    if (k // 5) % 2:
+        ks.reverse()
+    return dict((x, d[x]) for x in ks)
+
+
 def to_library(case):
     """JSON -> the structure parse_relations documents (input of PkgRelation.str)."""
     out = []
+    n = 0
     for alts in case["rels"]:
         o = []
         for r in alts:
-            o.append({
+            n += 1
+            o.append(_reorder({
                 "name": r["name"],
                 "archqual": r["archqual"],
                 "version": None if r["version"] is None else (r["version"][0], r["version"][1]),
@@ -131,7 +147,7 @@ def to_library(case):
                 [PkgRelation.ArchRestriction(t[0], t[1]) for t in r["arch"]],
                 "restrictions": None if r["restrictions"] is None else
                 [[PkgRelation.BuildRestriction(t[0], t[1]) for t in g] for g in r["restrictions"]],
-            })
+            }, (case.get("korder", 0) * n) if isinstance(case.get("korder", 0), int) else 0))
         out.append(o)
     return out
 
@@ -275,6 +291,8 @@ def check(case):
                             "%s: %s read as: %s" % (what, short(s, 160), d[1]))
 
     labels = set()
+    if case.get("korder"):
+        labels.add("mapping-filled-in-another-key-order")
     best = 0
     allr = [r for alts in case["rels"] for r in alts]
     for r in allr:
@@ -351,6 +369,11 @@ def enum_cases():
         for m2 in masks:
             yield {"rels": [[fixed(m1, "p1"), fixed(m2, "p2")]]}
             yield {"rels": [[fixed(m1, "p1")], [fixed(m2, "p2")]]}
+    # the same structures as mappings filled in another key order (all 10 rotations/reversals)
+    for m1 in masks:
+        for k in range(1, 10):
+            yield {"rels": [[fixed(m1, "p1")]], "korder": k}
+            yield {"rels": [[fixed(m1, "p1"), fixed(masks[(k * 7) % 16], "p2")]], "korder": k}
 
 
 # ------------------------------------------------------------------------------------------
@@ -413,8 +436,9 @@ def relation_s(draw):
                 draw(restr_s) if mask[3] else None)
 
 
-case_s = st.builds(lambda rels: {"rels": rels},
-                   st.lists(st.lists(relation_s(), min_size=1, max_size=3), min_size=1, max_size=4))
+case_s = st.builds(lambda rels, k: {"rels": rels, "korder": k} if k else {"rels": rels},
+                   st.lists(st.lists(relation_s(), min_size=1, max_size=3), min_size=1, max_size=4),
+                   st.sampled_from([0, 0, 0, 1, 2, 3, 4, 5, 6, 7, 8, 9]))
 
 
 def sources(tier):
